@@ -288,6 +288,17 @@ pub struct World {
     pub iter_panic_now: Cell<Option<usize>>,
     /// the output token whose destructor panics (scripted)
     pub tok_panics: Cell<Option<u32>>,
+    /// the object (upstream stream) whose destructor panics (scripted)
+    pub ident_panics: Cell<Option<u32>>,
+    /// scripted destructor panics that have fired (children or outputs); poll panics are counted apart
+    pub drop_panics: Cell<u32>,
+    /// only children's `poll` may panic in this history (never a destructor)
+    pub poll_panics_only: Cell<bool>,
+    /// output tokens that have reached the harness (yielded), by token id
+    pub handed_out: RefCell<std::collections::HashSet<u32>>,
+    /// the crate may legitimately drop outputs inside a poll (joins: error path; unit outputs)
+    pub discard_rule: Cell<bool>,
+    pub ordered_subject: Cell<bool>,
     pub panic_outputs: Cell<bool>,
     pub panic_leaks_ok: Cell<bool>,
     pub scripted_panic: Cell<bool>,
@@ -365,6 +376,12 @@ impl World {
             iter_panic_at: Cell::new(None),
             iter_panic_now: Cell::new(None),
             tok_panics: Cell::new(None),
+            ident_panics: Cell::new(None),
+            drop_panics: Cell::new(0),
+            poll_panics_only: Cell::new(false),
+            handed_out: RefCell::new(std::collections::HashSet::new()),
+            discard_rule: Cell::new(false),
+            ordered_subject: Cell::new(false),
             panic_outputs: Cell::new(false),
             panic_leaks_ok: Cell::new(true),
             scripted_panic: Cell::new(false),
@@ -396,6 +413,9 @@ impl World {
             && !(prop == "C08" && (rule == "moved_before_drop" || rule == "moved_between_polls"))
             && !(prop == "C12" && rule == "poll_without_notification")
             && !(prop == "C15" && (rule == "len_exceeds_capacity" || rule == "accepted_at_reported_capacity"))
+            && !(self.drop_panics.get() == 0
+                && ((prop == "C02" && (rule == "none_while_nonempty" || rule == "output_discarded" || rule == "yielded_twice"))
+                    || (prop == "C04" && (rule == "ended_before_queue_drained" || rule == "output_discarded" || rule == "out_of_queue_order"))))
         {
             // (after a child panicked, what is judged is memory safety as safe code sees it: no
             // value nobody produced or already dropped is handed out, nothing is dropped twice,
@@ -430,9 +450,17 @@ impl World {
     /// allocations) of *other* properties are recorded and the history goes on, so that they do
     /// not mask the property under test.
     pub fn has_violation(&self) -> bool {
-        const SOFT: [&str; 6] = ["C01", "C12", "C13", "C14", "C17", "C18"];
+        const SOFT: [&str; 7] = ["C01", "C04", "C12", "C13", "C14", "C17", "C18"];
         let armed = self.armed.get();
         self.viol.borrow().iter().any(|v| v.prop == armed || !SOFT.contains(&v.prop))
+    }
+
+    /// every violation so far is one of a behavioural property (counts, order, wake-ups): nothing
+    /// that touches memory or ownership, nothing the harness answered by forgetting a value
+    pub fn only_behavioural_violations(&self) -> bool {
+        const B: [&str; 13] = ["C01", "C02", "C04", "C09", "C10", "C11", "C12", "C13", "C14", "C15", "C16", "C17", "C18"];
+        let armed = self.armed.get();
+        self.viol.borrow().iter().all(|v| v.prop != armed && B.contains(&v.prop) && v.rule != "poll_panicked")
     }
 
     // ------------------------------------------------------------------ objects
@@ -857,6 +885,7 @@ impl World {
         let pd = self.kids.borrow()[id as usize].panic_in_drop;
         if pd && self.ctx.get() == Ctx::InPoll && !std::thread::panicking() {
             self.kids.borrow_mut()[id as usize].panic_in_drop = false;
+            self.drop_panics.set(self.drop_panics.get() + 1);
             self.scripted_panic.set(true);
             self.panic_mode.set(true);
             panic!("scripted panic in the destructor of kid {id}");
@@ -1189,11 +1218,27 @@ impl Drop for Tok {
                 if c != self.id ^ MAGIC {
                     w.violation("C07", "corrupt_token", format!("token {} canary {c:#x}", self.id));
                 }
+                // an output the crate drops inside a poll call although nobody has received it:
+                // the collections and adapters never do that (only a destructor that unwinds
+                // may cost what is in flight at that moment)
+                if w.discard_rule.get()
+                    && w.ctx.get() == Ctx::InPoll
+                    && crate::alloc::in_crate()
+                    && w.drop_panics.get() == 0
+                    && !w.handed_out.borrow().contains(&self.id)
+                {
+                    let d = format!("output {} of kid {} was dropped inside a poll call without having been yielded ({})", self.id, self.producer, w.desc.borrow());
+                    w.violation("C02", "output_discarded", d.clone());
+                    if w.ordered_subject.get() {
+                        w.violation("C04", "output_discarded", d);
+                    }
+                }
                 w.obj_dropped(self.id, MAGIC);
                 // scripted: the destructor of this output panics (once, only while the crate is
                 // dropping it inside a poll, never during another unwind)
                 if w.tok_panics.get() == Some(self.id) && w.ctx.get() == Ctx::InPoll && !std::thread::panicking() {
                     w.tok_panics.set(None);
+                    w.drop_panics.set(w.drop_panics.get() + 1);
                     w.scripted_panic.set(true);
                     w.panic_mode.set(true);
                     panic!("scripted panic in the destructor of output {}", self.id);
@@ -1221,6 +1266,16 @@ impl Drop for Ident {
     fn drop(&mut self) {
         if let Some(w) = try_w() {
             w.obj_dropped(self.0, MAGIC);
+            // scripted: the destructor of the upstream stream panics (once, only while an
+            // adapter drops it inside a poll - i.e. when it has ended -, never during an unwind)
+            if w.ident_panics.get() == Some(self.0) && w.ctx.get() == Ctx::InPoll && !std::thread::panicking() {
+                let _g = leave_crate();
+                w.ident_panics.set(None);
+                w.drop_panics.set(w.drop_panics.get() + 1);
+                w.scripted_panic.set(true);
+                w.panic_mode.set(true);
+                panic!("scripted panic in the destructor of the upstream stream");
+            }
         }
     }
 }
